@@ -172,6 +172,12 @@ def main():
                 del e
             gc.collect()
     finally:
+        # worker processes of the stage that are still alive now that the call has returned
+        try:
+            import multiprocessing
+            out['live_children'] = len(multiprocessing.active_children())
+        except Exception:       # noqa
+            out['live_children'] = -1
         if sd:
             open(os.path.join(sd, f'END_{run}'), 'w').close()
         if job.get('end_token') and job.get('trace_dir'):
